@@ -19,6 +19,7 @@ import (
 	"verif/sim/internal/engines/conc"
 	"verif/sim/internal/engines/recovery"
 	"verif/sim/internal/engines/rw"
+	"verif/sim/internal/engines/static"
 	"verif/sim/internal/sched"
 	"verif/sim/internal/shrink"
 	"verif/sim/internal/tape"
@@ -32,6 +33,7 @@ var engines = map[string]eng.Engine{
 	"chain": chain.Engine{},
 	"rw":    rw.Engine{},
 	"recovery": recovery.Engine{},
+	"static":   static.Engine{},
 }
 
 // ReplayFile is the on-disk form of one (minimised) failing run.
@@ -275,6 +277,7 @@ func batch(args []string) {
 		os.Stdout.Write(b)
 		fmt.Println()
 	}
+	static.Cleanup()
 	os.Exit(0) // do not wait for goroutines a hanging run may have left behind
 }
 
